@@ -1,36 +1,358 @@
-import MqttVerif.Conn.Lemmas.Basic
+import MqttVerif.Conn.Lemmas.Credit
 /-!
-# C12 — Receive Maximum flow control (first instalment)
+# C12 — Receive Maximum flow control is exact in both directions
+
+Statement (properties.jsonl): on a v5.0 connection whose peer announced Receive Maximum M, a new
+QoS>0 PUBLISH is accepted only while fewer than M outbound QoS>0 exchanges of this connection
+are incomplete; the reported vacancy equals M minus that number, never wraps or panics, and returns
+to M when all exchanges complete; conversely an excess inbound QoS>0 PUBLISH is answered with
+DISCONNECT 'Receive Maximum exceeded' and not delivered.
+
+Model fields: `sendMax` (M), `sendCount` (u16), wait sets `puback pubrec pubcomp`, `store`;
+`vacancy s = sendMax.map (· - sendCount)`.  Proved here, for **every** M, state, packet, parser
+and operation:
+* `C12_no_wrap` — neither `+= 1` site panics (given M ≤ 65535 and ≤ 65535 stored packets);
+  `C12_dec_never_underflows`; `C12_no_wrap_needs_store_bound` — the store bound is necessary;
+* `C12_send_accepted_iff_credit` — the gate is exactly `sendCount ≥ M`, with the exact frame of a
+  refusal and `+1` on acceptance;
+* `C12_recv_excess_disconnects`, `C12_publishRecv_*` — receiver side;
+* the exact equation: `C12_credit_invariant_partial` (per-transition, on a live connection),
+  `C12_resume_recount`, `C12_vacancy_returns`; the full statement over all histories is **false**:
+  `C12_credit_invariant_full_false` with three `decide`d witnesses (findings #28, #29).
 -/
 set_option linter.unusedSimpArgs false
 set_option linter.unusedVariables false
 namespace MqttVerif.Conn
 open MqttVerif
 
-/-- the three decrements of `publish_send_count` never wrap (fix, finding #10) -/
-theorem C12_decrement_never_wraps (c : C) :
-    (decSendCount c).s.sendCount ≤ c.s.sendCount ∧ (decSendCount c).s.panic = c.s.panic ∧
-    (c.s.sendMax.isSome = true → c.s.sendCount > 0 → (decSendCount c).s.sendCount + 1 = c.s.sendCount) := by
-  unfold decSendCount
-  by_cases h : c.s.sendMax.isSome = true ∧ c.s.sendCount > 0
-  · simp [h]; omega
-  · simp only [h, if_false, Nat.le_refl, true_and]
-    intro a b; exact absurd ⟨a, b⟩ h
+/-! ## 1. the counter never wraps -/
 
-/-- reported vacancy = M − count, saturating at zero, for every M and every count -/
-theorem C12_vacancy_formula (s : St) (m : Nat) (h : s.sendMax = some m) :
-    vacancy s = some (m - s.sendCount) ∧ (s.sendCount ≥ m → vacancy s = some 0) := by
-  simp [vacancy, h]; omega
+/-- no call raises a panic at one of the two `publish_send_count += 1` sites, provided the
+    peer's Receive Maximum is a `u16` value and at most 65535 packets are stored (`WrapPre`);
+    for every M ≥ 0, every operation, every peer input.  (`cpOf panic` = "the sticky panic is one
+    of the two counter sites".) -/
+theorem C12_no_wrap (cfg : Cfg) (s : St) (op : Op) (h : WrapPre s) (hp : s.panic = none) :
+    (step cfg s op).s.panic ≠ some siteStored ∧ (step cfg s op).s.panic ≠ some sitePublish := by
+  have := step_cp cfg s op h
+  simp only [hp, cpOf] at this
+  simp only [Option.some.injEq, reduceCtorEq, or_self, decide_false, decide_eq_false_iff_not, not_or] at this
+  exact this
 
-/-- the send gate: with Receive Maximum M a QoS>0 PUBLISH reaching the flow-control stage is
-    refused with ReceiveMaximumExceeded exactly when `count ≥ M`, before the alias table is
-    touched (fix, finding #11), and then nothing is sent -/
-theorem C12_gate_blocks_iff (c : C) (p : Pkt) (rel : Option Nat) (v : Bool) (m : Nat)
-    (hq : p.qos > 0) (hm : c.s.sendMax = some m) (hfull : c.s.sendCount ≥ m) :
-    psV5PublishAlias c p rel v = pubRefuseCleanup (c.err eRMExceeded) p.pid := by
-  simp [psV5PublishAlias, hq, hm, hfull]
+/-- the three decrements (PUBACK / failing PUBREC / PUBCOMP, and `erase`) go through
+    `decSendCount`, which is guarded: never below zero, no panic site -/
+theorem C12_dec_never_underflows (c : C) :
+    (decSendCount c).s.sendCount = c.s.sendCount - 1 ∨ (decSendCount c).s.sendCount = c.s.sendCount := by
+  unfold decSendCount; split <;> simp
+theorem C12_dec_panic (c : C) : (decSendCount c).s.panic = c.s.panic := by
+  unfold decSendCount; split <;> rfl
 
-example : ∃ c : C, c.s.sendMax = some 1 ∧ c.s.sendCount ≥ 1 :=
-  ⟨{ cfg := ⟨.client, 2⟩, s := { (St.init ⟨.client, 2⟩ 5) with sendMax := some 1, sendCount := 1 } }, rfl, by decide⟩
+/-! ## 2. the send gate -/
+
+/-- with `sendMax = some M`, a v5.0 QoS>0 PUBLISH that passes all other checks (size, allowed,
+    identifier in use and fresh, full topic, alias in range if any) is refused with
+    ReceiveMaximumExceeded **iff** `sendCount ≥ M`.  On refusal exactly `[error 0x93, released id]`
+    is emitted, nothing is sent, the identifier is released and all of store / wait sets / alias
+    tables / counters are as before (`core` = the 14 fields C12 and C13 talk about); otherwise
+    `sendCount` grows by exactly 1, the identifier enters its wait set and no error is reported. -/
+theorem C12_send_accepted_iff_credit (c : C) (p : Pkt) (id M : Nat) (hev : c.ev = [])
+    (hsz : sizeOk c p = true) (hq : p.qos > 0)
+    (hid : p.pid = some id) (hna : pubNotAllowed c.s = false) (hu : isUsed c.s id = true)
+    (hk : p.kind = .publish) (ht : p.topic ≠ [])
+    (halias : ∀ a, p.alias = some a → validateTopicAliasRange c.s a = true)
+    (hM : c.s.sendMax = some M) (hM65 : M ≤ 65535)
+    (h1 : id ∉ c.s.puback) (h2 : id ∉ c.s.pubrec) (h3 : lookup id c.s.store = none) :
+    (Ev.error eRMExceeded ∈ (psV5Publish c p).ev ↔ c.s.sendCount ≥ M) ∧
+    (c.s.sendCount ≥ M →
+      (psV5Publish c p).ev = [.error eRMExceeded, .released id] ∧
+      (psV5Publish c p).s.core = c.s.core ∧
+      (psV5Publish c p).s.pidMan = (Alloc.deallocate c.s.pidMan id).2) ∧
+    (c.s.sendCount < M →
+      (psV5Publish c p).s.sendCount = c.s.sendCount + 1 ∧
+      (psV5Publish c p).s.puback = (addWait c p.qos id).s.puback ∧
+      (psV5Publish c p).s.pubrec = (addWait c p.qos id).s.pubrec) := by
+  have hA := fun hge => psV5Publish_refused c p id M hsz hq hid hna hu hk ht hM hge h1 h2 h3
+  have hB := fun hlt => psV5Publish_accepted c p id M hsz hq hid hna hu ht halias hM hlt hM65
+  have hS := fun hlt => accepted_sets c p id M hsz hq hid hna hu ht halias hM hlt
+  refine ⟨⟨?_, ?_⟩, ?_, ?_⟩
+  · intro hin
+    by_cases hge : c.s.sendCount ≥ M
+    · exact hge
+    · have := (hB (by omega)).2 _ hin
+      simp [hev] at this
+  · intro hge; rw [(hA hge).1]; simp
+  · intro hge; have := hA hge; simpa [hev] using this
+  · intro hlt; exact ⟨(hB hlt).1, hS hlt⟩
+
+/-! ## 5. receiver side -/
+
+/-- with `recvMax = some L` and `L` identifiers unanswered, a received v5.0 QoS>0 PUBLISH that
+    passed the alias stage is **not delivered** (no `.recv` event) and reported as
+    ReceiveMaximumExceeded; while connected: DISCONNECT 0x93 + close (or only close when the
+    DISCONNECT exceeds the peer's Maximum Packet Size), status `disconnected` -/
+theorem C12_recv_excess_disconnects (c : C) (p p' : Pkt) (L : Nat) (hL : c.s.recvMax = some L)
+    (hge : c.s.publishRecv.length ≥ L) (hq : p.qos > 0) (hpid : p.pid.isSome)
+    (hpass : (prV5PublishAlias c p).2 = some p') :
+    recvs (prV5Publish c (.ok p)).ev = recvs c.ev ∧
+    (prV5Publish c (.ok p)).s.publishRecv = c.s.publishRecv ∧
+    (c.s.status = .connected →
+      (prV5Publish c (.ok p)).s.status = .disconnected ∧
+      ∃ tc, (∀ x ∈ tc, IsTimerCancel x) ∧
+        (prV5Publish c (.ok p)).ev = c.ev ++ tc ++
+          (if sizeOk c (mkV5Disconnect 0x93) then [.send (mkV5Disconnect 0x93) none, .close] else [.close]) ++
+          [.error eRMExceeded]) := by
+  obtain ⟨e1, e2, e3⟩ := prvAlias_pass c p p' hpass
+  rw [recv_excess_eq c p p' L hL hge hq hpid hpass]
+  refine ⟨by simp, by simp, ?_⟩
+  intro hc
+  obtain ⟨s1, tc, h1, h2⟩ := handleV5Error_connected (prV5PublishAlias c p).1 eRMExceeded (by rw [e2]; exact hc)
+  refine ⟨s1, tc, h1, ?_⟩
+  have hsz : sizeOk (prV5PublishAlias c p).1 (mkV5Disconnect 0x93) = sizeOk c (mkV5Disconnect 0x93) := by
+    unfold sizeOk; simp [e3]
+  simpa [errToDisconnectRc, eRMExceeded, e1, hsz] using h2
+
+/-- `publishRecv` is inserted into only by the bookkeeping stage of an accepted QoS>0 PUBLISH … -/
+theorem C12_publishRecv_insert (c : C) (qos id : Nat) :
+    (prvBook c qos id).s.publishRecv = if qos > 0 then ins id c.s.publishRecv else c.s.publishRecv := by
+  unfold prvBook; dsimp only; (repeat' split) <;> simp_all
+
+/-- … and deleted from only by a PUBACK / PUBCOMP / failing PUBREC that is actually sent
+    (requested with the same identifier in the same call) -/
+theorem C12_publishRecv_delete (c : C) (p : Pkt) :
+    ((psV5Puback c p).s.publishRecv = c.s.publishRecv ∨
+      ((psV5Puback c p).s.publishRecv = del (p.pid.getD 0) c.s.publishRecv ∧ Ev.send p none ∈ (psV5Puback c p).ev)) ∧
+    ((psV5Pubrec c p).s.publishRecv = c.s.publishRecv ∨
+      ((psV5Pubrec c p).s.publishRecv = del (p.pid.getD 0) c.s.publishRecv ∧
+        (∃ rc, p.rc = some rc ∧ rc ≥ 0x80) ∧ Ev.send p none ∈ (psV5Pubrec c p).ev)) := by
+  constructor
+  · unfold psV5Puback; dsimp only
+    split; left; rfl
+    split; left; rfl
+    right
+    refine ⟨by simp, ?_⟩
+    unfold sendPostProcess; dsimp only; (repeat' split) <;> simp
+  · unfold psV5Pubrec; dsimp only
+    split; left; rfl
+    split; left; rfl
+    cases hrc : p.rc with
+    | none => left; simp
+    | some rc =>
+      by_cases h : rc ≥ 0x80
+      · right
+        refine ⟨by simp [h], ⟨rc, rfl, h⟩, ?_⟩
+        unfold sendPostProcess; dsimp only; (repeat' split) <;> simp
+      · left; simp [h]
+
+/-- every other public call leaves `publishRecv` alone (a CONNECT re-initialises it) -/
+theorem C12_publishRecv_frame (cfg : Cfg) (s : St) (op : Op)
+    (h : match op with | .send _ => False | .recv _ _ => False | _ => True) :
+    (step cfg s op).s.publishRecv = s.publishRecv := by
+  cases op <;> simp [step] at h ⊢
+  case setFlag f b => cases f <;> rfl
+  case restorePackets ps =>
+    have : ∀ c : C, (restorePackets c ps).s.publishRecv = c.s.publishRecv := by
+      induction ps with
+      | nil => intro c; rfl
+      | cons p r ih => intro c; simp only [restorePackets]; rw [ih]; simp
+    exact this _
+
+/-! ## 3./4. the exact equation -/
+
+def waitCount (s : St) : Nat := s.puback.length + s.pubrec.length + s.pubcomp.length
+
+/-- `sendCount = |puback| + |pubrec| + |pubcomp| + |limbo|` whenever a Receive Maximum is known;
+    `limbo` = identifiers whose PUBREC arrived and whose PUBREL was not sent yet (manual mode) -/
+def CreditEq (s : St) (limbo : List Nat) : Prop :=
+  ∀ M, s.sendMax = some M → s.sendCount = waitCount s + limbo.length
+
+/-- ghost limbo set after a call: still-owned identifiers that left `pubrec` without entering
+    `pubcomp` -/
+def limboNext (s s' : St) (limbo : List Nat) : List Nat :=
+  ((limbo ++ s.pubrec.filter (· ∉ s'.pubrec)).filter
+    (fun id => id ∉ s'.pubcomp ∧ id ∉ s'.pubrec ∧ isUsed s' id)).eraseDups
+
+def limboRun (cfg : Cfg) : St → List Nat → List Op → List Nat
+  | _, limbo, [] => limbo
+  | s, limbo, op :: ops => limboRun cfg (step cfg s op).s (limboNext s (step cfg s op).s limbo) ops
+
+/-- minimal legality of a call relative to the state: a QoS>0 PUBLISH uses an identifier owned
+    by no other exchange, a PUBREL continues an exchange in limbo, stored packets are restored or
+    erased only consistently -/
+def opLegal (s : St) (limbo : List Nat) : Op → Bool
+  | .send p =>
+    if p.kind = .publish ∧ p.qos > 0 then
+      match p.pid with
+      | some id => id ∉ s.puback ∧ id ∉ s.pubrec ∧ id ∉ s.pubcomp ∧ id ∉ limbo ∧ (lookup id s.store).isNone
+      | none => false
+    else if p.kind = .pubrel then decide (p.pid.getD 0 ∈ limbo) else true
+  | .restorePackets _ => s.status = .disconnected
+  | .erase id => id ∈ s.puback ∨ id ∈ s.pubrec
+  | _ => true
+
+def legalRun (cfg : Cfg) : St → List Nat → List Op → Bool
+  | _, _, [] => true
+  | s, limbo, op :: ops =>
+    opLegal s limbo op && legalRun cfg (step cfg s op).s (limboNext s (step cfg s op).s limbo) ops
+
+/-- the full statement: along every legal history of a fresh v5.0 connection object -/
+def C12_credit_invariant_full : Prop :=
+  ∀ (cfg : Cfg) (ops : List Op), legalRun cfg (St.init cfg 5) [] ops = true →
+    CreditEq (run cfg (St.init cfg 5) ops) (limboRun cfg (St.init cfg 5) [] ops)
+
+namespace C12Ex
+def cfg : Cfg := { role := .client, pw := 2 }
+def connect (props : List (Nat × Nat)) : Pkt := { ver := 5, kind := .connect, size := 15, props := props }
+def connack (sp : Bool) (props : List (Nat × Nat)) : Pkt :=
+  { ver := 5, kind := .connack, size := 8, rc := some 0, sp := sp, props := props }
+def pub (qos id : Nat) : Pkt := { ver := 5, kind := .publish, topic := [97], qos := qos, pid := some id }
+def ack (k : Kind) (id : Nat) : Pkt := { ver := 5, kind := k, size := 4, pid := some id }
+def rx (fh : Nat) (p : Pkt) : Op := .recv [fh, 0] (fun _ _ _ => .ok p)
+def fin (ops : List Op) : St := run cfg (St.init cfg 5) ops
+
+/-- **witness, finding #29**: after the transport of a non-persistent session closed nothing is
+    outstanding, but the old counter and limit are still in force (vacancy 1 instead of 2) -/
+def w29 : List Op :=
+  [.send (connect []), rx 0x20 (connack false [(pRM, 2)]), .acquire, .send (pub 1 1), .closed]
+/-- **witness, finding #28**: a QoS 2 exchange in limbo (PUBREC seen, PUBREL not yet sent) carried
+    across a reconnect is not recounted: after the manual PUBREL the counter is one too low -/
+def w28 : List Op :=
+  [.send (connect [(pSEI, 60)]), rx 0x20 (connack false [(pRM, 5)]), .acquire, .send (pub 2 1),
+   rx 0x50 (ack .pubrec 1), .closed,
+   .send (connect [(pSEI, 60)]), rx 0x20 (connack true [(pRM, 5)]), .send (ack .pubrel 1)]
+/-- **witness, finding #29 (second half)**: an offline PUBLISH between two connections is
+    counted against, and the next one refused by, the *previous* connection's Receive Maximum -/
+def w29b : List Op :=
+  [.send (connect [(pSEI, 60)]), rx 0x20 (connack false [(pRM, 1)]), .closed, .setFlag .offline true,
+   .acquire, .send (pub 1 1), .acquire]
+
+theorem w29_violates : legalRun cfg (St.init cfg 5) [] w29 = true ∧ (fin w29).sendMax = some 2 ∧
+    (fin w29).sendCount = 1 ∧ waitCount (fin w29) = 0 ∧ limboRun cfg (St.init cfg 5) [] w29 = [] ∧
+    vacancy (fin w29) = some 1 := by decide
+theorem w28_violates : legalRun cfg (St.init cfg 5) [] w28 = true ∧ (fin w28).sendMax = some 5 ∧
+    (fin w28).status = .connected ∧ (fin w28).sendCount = 0 ∧ (fin w28).pubcomp = [1] ∧
+    waitCount (fin w28) = 1 ∧ limboRun cfg (St.init cfg 5) [] w28 = [] := by decide
+theorem w29b_refused_offline : legalRun cfg (St.init cfg 5) [] w29b = true ∧
+    (fin w29b).status = .disconnected ∧
+    (step cfg (fin w29b) (.send (pub 1 2))).ev = [.error eRMExceeded, .released 2] := by decide
+end C12Ex
+
+/-- the full equation does **not** hold for all legal histories (findings #28, #29) -/
+theorem C12_credit_invariant_full_false : ¬ C12_credit_invariant_full := by
+  intro h
+  have h28 := C12Ex.w28_violates
+  have := h C12Ex.cfg C12Ex.w28 h28.1 5 h28.2.1
+  rw [show run C12Ex.cfg (St.init C12Ex.cfg 5) C12Ex.w28 = C12Ex.fin C12Ex.w28 from rfl,
+    h28.2.2.2.1, h28.2.2.2.2.2.1, h28.2.2.2.2.2.2] at this
+  simp at this
+
+/-- **partial invariant** — the equation is maintained, with the counter moving by exactly one,
+    by each transition of an exchange on a live connection (the class of histories without
+    reconnect-in-limbo and without reading the counter between connections):
+    an accepted QoS>0 PUBLISH (+1 on both sides), a refused one (nothing changes), PUBACK and
+    PUBCOMP for an awaited identifier (−1 on both sides). -/
+theorem C12_credit_invariant_partial (c : C) (limbo : List Nat) (heq : CreditEq c.s limbo) :
+    -- accepted / refused PUBLISH
+    (∀ (p : Pkt) (id M : Nat), sizeOk c p = true → p.qos > 0 → p.pid = some id → pubNotAllowed c.s = false →
+      isUsed c.s id = true → p.kind = .publish → p.topic ≠ [] →
+      (∀ a, p.alias = some a → validateTopicAliasRange c.s a = true) →
+      c.s.sendMax = some M → M ≤ 65535 → id ∉ c.s.puback → id ∉ c.s.pubrec → lookup id c.s.store = none →
+      CreditEq (psV5Publish c p).s limbo) ∧
+    -- PUBACK
+    (∀ p : Pkt, p.ver = 5 → p.pid.getD 0 ∈ c.s.puback → c.s.puback.Nodup →
+      CreditEq (prPuback c (.ok p)).s limbo) ∧
+    -- PUBCOMP
+    (∀ p : Pkt, p.ver = 5 → p.pid.getD 0 ∈ c.s.pubcomp → c.s.pubcomp.Nodup →
+      CreditEq (prPubcomp c (.ok p)).s limbo) := by
+  refine ⟨?_, ?_, ?_⟩
+  · intro p id M hsz hq hid hna hu hk ht halias hM hM65 h1 h2 h3 M' hM'
+    have hM'' : M' = M := by simp [hM] at hM'; exact hM'.symm
+    subst hM''
+    have e0 := heq M' hM
+    by_cases hge : c.s.sendCount ≥ M'
+    · have hcore := (psV5Publish_refused c p id M' hsz hq hid hna hu hk ht hM hge h1 h2 h3).2.1
+      have f : ∀ {β : Type} (F : Core → β), F (psV5Publish c p).s.core = F c.s.core := fun F => congrArg F hcore
+      have a1 : (psV5Publish c p).s.sendCount = c.s.sendCount := f Core.sendCount
+      have a2 : (psV5Publish c p).s.puback = c.s.puback := f Core.puback
+      have a3 : (psV5Publish c p).s.pubrec = c.s.pubrec := f Core.pubrec
+      have a4 : (psV5Publish c p).s.pubcomp = c.s.pubcomp := f Core.pubcomp
+      simp only [waitCount, a1, a2, a3, a4]; exact e0
+    · have hlt : c.s.sendCount < M' := by omega
+      have b1 := (psV5Publish_accepted c p id M' hsz hq hid hna hu ht halias hM hlt hM65).1
+      obtain ⟨b2, b3⟩ := accepted_sets c p id M' hsz hq hid hna hu ht halias hM hlt
+      have b4 : (psV5Publish c p).s.pubcomp = c.s.pubcomp := by simp
+      simp only [waitCount, b1, b2, b3, b4]
+      unfold addWait
+      simp only [waitCount] at e0
+      split
+      · simp only [length_ins h2]; omega
+      · simp only [length_ins h1]; omega
+  · intro p hv hin hnd M hM
+    have hM0 : c.s.sendMax = some M := by rw [← hM]; simp
+    have hs : c.s.sendMax.isSome := by simp [hM0]
+    obtain ⟨a1, a2, a3, a4⟩ := prPuback_credit c p hv hin hs
+    have e0 := heq M hM0
+    have := length_del hin hnd
+    simp only [waitCount, a1, a2, a3, a4] at e0 ⊢
+    omega
+  · intro p hv hin hnd M hM
+    have hM0 : c.s.sendMax = some M := by rw [← hM]; simp
+    have hs : c.s.sendMax.isSome := by simp [hM0]
+    obtain ⟨a1, a2, a3, a4⟩ := prPubcomp_credit c p hv hin hs
+    have e0 := heq M hM0
+    have := length_del hin hnd
+    simp only [waitCount, a1, a2, a3, a4] at e0 ⊢
+    omega
+
+/-- on resume (`send_stored`) the counter is recounted: it equals the number of stored packets
+    that are resent on the new connection (fix of finding #10 / #10b) -/
+theorem C12_resume_recount (c : C) (hs : c.s.sendMax.isSome) (hlen : c.s.store.length ≤ 65535) :
+    (sendStored c).s.sendCount = (sendStored c).s.store.length :=
+  sendStored_recount c hs hlen
+
+/-- where the equation holds: when all of puback / pubrec / pubcomp / limbo are empty the
+    vacancy is M again -/
+theorem C12_vacancy_returns (s : St) (limbo : List Nat) (M : Nat) (heq : CreditEq s limbo)
+    (hM : s.sendMax = some M) (h1 : s.puback = []) (h2 : s.pubrec = []) (h3 : s.pubcomp = [])
+    (h4 : limbo = []) : vacancy s = some M := by
+  have := heq M hM
+  simp [waitCount, h1, h2, h3, h4] at this
+  simp [vacancy, hM, this]
+
+/-! ## non-vacuity -/
+namespace C12Ex
+
+/-- established v5.0 session, Receive Maximum 1 announced by the peer, persistent (store in use) -/
+def sA : St := fin [.send (connect [(pSEI, 60), (pRM, 1)]), rx 0x20 (connack false [(pRM, 1)]), .acquire]
+/-- the same with one QoS 1 exchange outstanding (credit exhausted) and a second identifier -/
+def sB : St := run cfg sA [.send (pub 1 1), .acquire]
+def cA : C := { cfg := cfg, s := sA }
+def cB : C := { cfg := cfg, s := sB }
+
+/-- `C12_no_wrap` -/
+example : WrapPre sB ∧ sB.panic = none ∧ sB.store.length = 1 ∧ sB.sendMax = some 1 := by
+  refine ⟨⟨?_, by decide⟩, by decide, by decide, by decide⟩
+  intro M h; have : sB.sendMax = some 1 := by decide
+  rw [this] at h; cases h; decide
+/-- `C12_send_accepted_iff_credit`: accepted in `sA` (count 0 < 1), refused in `sB` (count 1 ≥ 1) -/
+example : cA.ev = [] ∧ sizeOk cA (pub 1 1) = true ∧ (pub 1 1).qos > 0 ∧ pubNotAllowed sA = false ∧
+    isUsed sA 1 = true ∧ sA.sendMax = some 1 ∧ sA.sendCount = 0 ∧ 1 ∉ sA.puback ∧ 1 ∉ sA.pubrec ∧
+    lookup 1 sA.store = none := by decide
+example : isUsed sB 2 = true ∧ sB.sendMax = some 1 ∧ sB.sendCount = 1 ∧ 2 ∉ sB.puback ∧ lookup 2 sB.store = none ∧
+    (psV5Publish cB (pub 1 2)).ev = [.error eRMExceeded, .released 2] := by decide
+/-- `C12_recv_excess_disconnects`: our Receive Maximum is 1, identifier 7 is unanswered -/
+def cR : C := { cfg := cfg, s := { sA with publishRecv := [7] } }
+example : cR.s.recvMax = some 1 ∧ cR.s.publishRecv.length ≥ 1 ∧ (prV5PublishAlias cR (pub 1 8)).2 = some (pub 1 8) ∧
+    cR.s.status = .connected := by decide
+/-- `C12_credit_invariant_partial`, `C12_vacancy_returns`, `C12_resume_recount` -/
+example : CreditEq sB [] ∧ sB.puback = [1] ∧ sB.puback.Nodup := by
+  refine ⟨?_, by decide, by decide⟩
+  intro M h; have : sB.sendMax = some 1 := by decide
+  rw [this] at h; cases h; decide
+example : CreditEq sA [] ∧ sA.sendMax = some 1 ∧ sA.puback = [] ∧ sA.pubrec = [] ∧ sA.pubcomp = [] := by
+  refine ⟨?_, by decide, by decide, by decide, by decide⟩
+  intro M h; have : sA.sendMax = some 1 := by decide
+  rw [this] at h; cases h; decide
+example : cB.s.sendMax.isSome ∧ cB.s.store.length ≤ 65535 ∧ (sendStored cB).s.sendCount = 1 := by decide
+
+end C12Ex
 
 end MqttVerif.Conn
